@@ -137,6 +137,13 @@ var pruneCalls = map[string]bool{
 
 func (x *Exec) callFn(f *frame, ins ssa.Instruction, fn *ssa.Function, args, binds []Value, g *Term, path string) Value {
 	name := baseName(fn)
+	if x.Cfg.SmallTables > 0 && (name == xsyncPath+".newMapTable" || name == xsyncPath+".newMapOfTable") {
+		// bound: the production minimum of 32 root buckets is replaced by a
+		// small table (the code only ever uses len(table.buckets))
+		if t, ok := args[0].(*Term); ok && t.IsConst() && t.Val == 32 {
+			args = []Value{x.U.Const(t.W, uint64(x.Cfg.SmallTables))}
+		}
+	}
 	if pruneCalls[name] && fn.Signature.Results().Len() == 0 {
 		if !x.feasible(x.act(g)) {
 			x.PrunedCalls++
@@ -296,7 +303,7 @@ func (x *Exec) appendOp(f *frame, ins ssa.Instruction, c *ssa.CallCommon, args [
 	}
 	elems := make([]Value, n2)
 	for j := 0; j < n2; j++ {
-		elems[j] = x.loadRaw(x.ptrOffset(src.Base, j*stride), et)
+		elems[j] = x.loadRaw(x.elemPtr(src.Base, j, stride), et)
 	}
 	newLen := u.BV(OAdd, s.Len, u.Const(64, uint64(n2)))
 	eg := x.act(g)
@@ -320,8 +327,8 @@ func (x *Exec) appendOp(f *frame, ins ssa.Instruction, c *ssa.CallCommon, args [
 		}
 		nb := PtrV{Alts: []PAlt{{u.True, base}}}
 		for j := 0; j < s.MaxLen; j++ {
-			ov := x.loadRaw(x.ptrOffset(s.Base, j*stride), et)
-			x.storeRaw(x.ptrOffset(nb, j*stride), et, ov, eg)
+			ov := x.loadRaw(x.elemPtr(s.Base, j, stride), et)
+			x.storeRaw(x.elemPtr(nb, j, stride), et, ov, eg)
 		}
 		dst = SliceV{Base: nb, Len: newLen, Cap: u.Const(64, uint64(ncap)), Stride: stride, MaxLen: s.MaxLen + n2, MaxCap: ncap}
 	}
@@ -331,7 +338,7 @@ func (x *Exec) appendOp(f *frame, ins ssa.Instruction, c *ssa.CallCommon, args [
 			continue
 		}
 		for j := 0; j < n2; j++ {
-			x.storeRaw(x.ptrOffset(dst.Base, (cand.Addr+j)*stride), et, elems[j], cg)
+			x.storeRaw(x.elemPtr(dst.Base, cand.Addr+j, stride), et, elems[j], cg)
 		}
 	}
 	return dst
@@ -655,9 +662,24 @@ func (x *Exec) intrinsic(f *frame, ins ssa.Instruction, fn *ssa.Function, name s
 		for _, s := range x.Spawned {
 			n = u.BV(OAdd, n, u.Ite(s.G, u.Const(64, 1), u.Const(64, 0)))
 		}
+		x.addStream("vx.spawned", StreamEnt{G: g, T: n, Thr: -1})
 		return n, true
 	case "VxNote":
 		return nil, true
 	}
 	return x.intrinsic2(f, ins, fn, name, args, g)
+}
+
+
+// elemPtr addresses element j of an array starting at base, dropping
+// alternatives whose backing object is too short for that element.
+func (x *Exec) elemPtr(base PtrV, j, stride int) PtrV {
+	r := PtrV{}
+	for _, al := range base.Alts {
+		if o, ok := x.ObjOf(al.Addr); ok && al.Addr+(j+1)*stride > o.Base+o.N {
+			continue
+		}
+		r.Alts = append(r.Alts, PAlt{al.G, al.Addr + j*stride})
+	}
+	return r
 }
